@@ -53,6 +53,16 @@ package stringutil
 //@   requires[cursor-in-text] len(contents) > 0 && 0 <= offset && offset <= len(contents)
 //@ end
 
+// C18: go-to-definition and hover on a require / dofile / import string must lead to the file the analysis loaded. The
+// analysis (CheckReferFile) turns EVERY "." of a module string into "/" - also in a string that already has a "/" -, so
+// the string under the cursor is normalised the same way, unconditionally, before it is used
+//@ func GetOpenFileStr
+//@   props C18
+//@   at call strings.Replace#0 before assert[every-dot-becomes-a-slash] streq(arg1, ".") && streq(arg2, "/") && arg3 == -1
+//@   at call strings.TrimSuffix#0 before assert[string-under-the-cursor-is-normalised-before-it-is-used] hits("strings.Replace#0") == 1
+//@   loop range:importVec invariant [C18] hits("strings.Replace#0") == 0 && len(strOpenFile) == 0
+//@ end
+
 //@ func matchSpecialBracketsStr
 //@   sweep C01
 //@   loop 0 invariant index >= offset && rightI == -1
